@@ -1,5 +1,6 @@
 CONSTANT SubmeshStep = 48
 CONSTANT AnimBoneRule = "table"
+CONSTANT RelocAdvanceAlways = FALSE
 CONSTANT ViewBatchBytes = 24
 INIT Init
 NEXT Next
